@@ -1134,7 +1134,83 @@ class Model(Family):
         return shrink_ops_case(case)
 
 
-FAMILIES = [NavRandom, NavExhaustive, NavIter, SeekNan, Model]
+class ModelExhaustive(Model):
+    """Implementation vs Coq model on EVERY op sequence of length 3 (quick) / 4 (thorough)
+    over the core alphabet (first,last,next,prev,clear, seek_index(i) and seek(midpoint of
+    tree i) for every i) plus copy/swap, on small ts.  A case = (ts, options, first op);
+    all completions are run inside observe and checked as one conjunction."""
+    name = "model_exh"
+    shard = 12
+    timeout = 300.0
+
+    def alphabet(self, d):
+        return exh_alphabet(d, "core") + [["copy"], ["swap"]]
+
+    def generate(self, rng, tier):
+        descs = [d for d in special_descs() if num_trees_of(d) <= 3]
+        n = 2 if tier == "quick" else 12
+        while n > 0:
+            d = many_trees_desc(rng, max_nodes=5, max_segs=3, max_sites=2, scale=rng.choice([1, 0.5, 2.5]))
+            if rng.random() < 0.3:
+                d = pad_desc(d, 1, 1)
+            if 2 <= num_trees_of(d) <= 3 and len(d["edges"]) <= 10:
+                descs.append(d)
+                n -= 1
+        length = 3 if tier == "quick" else 4
+        for d in descs:
+            opts = random_opts(rng, d)
+            for pre in sequences(self.alphabet(d), length - 2):
+                yield {"desc": d, "opts": opts, "prefix": pre, "length": length}
+
+    def observe(self, case):
+        desc = case["desc"]
+        ts = build_ts(desc)
+        cmap = coord_map(desc)
+        it = Interner()
+        fresh = fresh_states(ts, case["opts"], it, cmap)
+        runs = []
+        for suf in sequences(self.alphabet(desc), case["length"] - len(case["prefix"])):
+            ops = case["prefix"] + suf
+            runs.append([ops, run_ops(desc, ts, case["opts"], ops, it, cmap)])
+        return {"tab": table_obs(ts, cmap), "fresh": fresh, "runs": runs, "states": it.states,
+                "flags": [int(f) for f in ts.tables.nodes.flags], "nsites": int(ts.num_sites)}
+
+    def oracle(self, case, obs):
+        fails = []
+        for ops, steps in obs["runs"]:
+            fails += oracle_steps(case["desc"], case["opts"], obs["tab"], obs["states"], obs["fresh"],
+                                  ops, steps, tag="%r: " % (ops,))
+            if len(fails) > 4:
+                break
+        return fails
+
+    def coq_check(self, case, obs):
+        st = obs["states"]
+        tab = obs["tab"]
+        tree_sites = [st[i]["sites"] for i in obs["fresh"]["at_index"]]
+        tracked0 = st[obs["fresh"]["null"]]["num_tracked"]
+        ts = coq_ts(tab, obs["flags"], tree_sites, obs["nsites"], tracked0)
+        conj = ["valid_tsb ts"]
+        for ops, steps in obs["runs"]:
+            exp = []
+            for ret, exc, si, so, _ivf in steps:
+                code = RET_CODE[exc] if exc is not None else (2 if ret is None else int(ret))
+                exp.append("JL [JZ %s; %s; JZ %s]" % (cz(code), coq_J_state(st[si]), cz(st[so]["index"])))
+            conj.append("check_both ts [%s] [%s]" % ("; ".join(coq_op(case["desc"], o) for o in ops), "; ".join(exp)))
+        return "(let ts := %s in %s)" % (ts, " && ".join(conj))
+
+    def nontrivial(self, case, obs):
+        return True
+
+    def describe(self, case, obs):
+        return {"num_trees": len(obs["tab"]["bps"]) - 1, "sequences_per_case": len(obs["runs"]),
+                "length": case["length"]}
+
+    def shrink(self, case):
+        return []
+
+
+FAMILIES = [NavRandom, NavExhaustive, NavIter, SeekNan, Model, ModelExhaustive]
 
 NOT_COVERED = [
     "children order (abstracted: the property says 'up to the order of children')",
